@@ -167,11 +167,38 @@ func (r *Run) accessCheck(st *State, fr *Frame, a *Addr, write bool, in ssa.Inst
 		if b := e.cs.Funcs[e.fnName[fr.Fn]]; b != nil {
 			for _, cl := range b.All("reads-owned") {
 				for _, w := range cl.Words {
-					if w == field {
+					if w == field || w == owner+"."+field {
 						e.note("ownership: %s reads %s without the lock: %s", e.fnName[fr.Fn], a.Region, cl.Expr)
 						return
 					}
 				}
+			}
+		}
+	}
+	if write && e.readOwned(owner, field) {
+		// some function reads this field without the lock under an ownership argument: every writer states
+		// (and proves at the store) the condition under which that reader cannot be running
+		var wc *Clause
+		if b := e.cs.Funcs[e.fnName[fr.Fn]]; b != nil {
+			for _, cl := range b.All("write-when") {
+				for _, w := range cl.Words {
+					if w == field || w == owner+"."+field {
+						wc = cl
+					}
+				}
+			}
+		}
+		name := fmt.Sprintf("%s/own-write:%s", e.fnName[fr.Fn], field)
+		if wc == nil {
+			e.emitWith(st, name, "", nil, False, "write of "+a.Region+", which is read without the lock under an ownership argument (reads-owned), has no write-when clause", e.posOf(in), []string{"C11"}, nil)
+		} else {
+			c := e.specCtx(st, fr)
+			c.inLoop = true
+			x, err := parseSpec(wc.Expr)
+			if err != nil {
+				e.fail("%v", err)
+			} else {
+				e.emitWith(st, name, "", nil, c.boolTerm(x), "write of "+a.Region+" only when its unlocked readers cannot run: "+wc.Expr, e.posOf(in), ownProps(wc, e.cs.Funcs[e.fnName[fr.Fn]]), wc)
 			}
 		}
 	}
@@ -384,6 +411,57 @@ func (r *Run) havocMapContents(st *State, ownerT types.Type, owner string, base 
 		}
 		return
 	}
+}
+
+func ownProps(cl *Clause, b *Block) []string {
+	ps := []string{"C11"}
+	src := cl.Props
+	if len(src) == 0 && b != nil {
+		src = b.Props()
+	}
+	for _, p := range src {
+		if !hasProp(ps, p) {
+			ps = append(ps, p)
+		}
+	}
+	return ps
+}
+
+// readOwned: is the field read without its lock by some function under a `reads-owned` ownership note.
+func (e *Engine) readOwned(owner, field string) bool {
+	if e.readOwnedCache == nil {
+		e.readOwnedCache = map[string]bool{}
+		for name, b := range e.cs.Funcs {
+			fn := e.funcs[name]
+			if fn == nil || len(b.All("reads-owned")) == 0 {
+				continue
+			}
+			words := map[string]bool{}
+			for _, cl := range b.All("reads-owned") {
+				for _, w := range cl.Words {
+					words[w] = true
+				}
+			}
+			// the owner type of each named field is taken from the field accesses in the reader's body
+			for _, blk := range fn.Blocks {
+				for _, in := range blk.Instrs {
+					if fa, ok := in.(*ssa.FieldAddr); ok {
+						pt, _ := fa.X.Type().Underlying().(*types.Pointer)
+						if pt == nil {
+							continue
+						}
+						if sx, ok := pt.Elem().Underlying().(*types.Struct); ok {
+							k := e.structKey(pt.Elem()) + "." + sx.Field(fa.Field).Name()
+							if words[sx.Field(fa.Field).Name()] || words[k] {
+								e.readOwnedCache[k] = true
+							}
+						}
+					}
+				}
+			}
+		}
+	}
+	return e.readOwnedCache[owner+"."+field]
 }
 
 // notifyOnChange: `notify-on-change <lock>` — every change of state guarded by <lock> must be followed by a
